@@ -50,6 +50,12 @@ type rowT struct {
 type row1 struct {
 	A string
 }
+type jsonOpt struct {
+	A int      `json:"a,omitempty"`
+	B []string `json:"b,omitempty"`
+	C string   `json:"c,omitempty"`
+}
+
 type rowP struct { // header permutation shape
 	W string  `header:"w"`
 	X int     `header:"x"`
@@ -81,6 +87,32 @@ func valEq(a, b reflect.Value) bool {
 			}
 		}
 		return true
+	case reflect.Map:
+		if a.Len() != b.Len() {
+			return false
+		}
+		for _, k := range a.MapKeys() {
+			bv := b.MapIndex(k)
+			if !bv.IsValid() || !valEq(a.MapIndex(k), bv) {
+				return false
+			}
+		}
+		return true
+	case reflect.Slice:
+		if a.Len() != b.Len() {
+			return false
+		}
+		for i := 0; i < a.Len(); i++ {
+			if !valEq(a.Index(i), b.Index(i)) {
+				return false
+			}
+		}
+		return true
+	case reflect.Pointer:
+		if a.IsNil() || b.IsNil() {
+			return a.IsNil() == b.IsNil()
+		}
+		return valEq(a.Elem(), b.Elem())
 	default:
 		return a.Interface() == b.Interface()
 	}
@@ -669,7 +701,13 @@ func init() {
 					rs = append(rs, rowS{a, a + "!", len(a)%2 == 0})
 				}
 				jsonRT(c, "struct{string,string,bool}", rs)
-				c.Sample(map[string]any{"json_values": "strings, floats, ints, bools, times, snapshots, structs"})
+				// element types whose decoding merges into an existing value: each element must start from a fresh zero value
+				jsonRT(c, "map[string]int", []map[string]int{{"a": 1, "b": 2}, {"c": 3}, {}, {"a": 4}})
+				jsonRT(c, "[]int", [][]int{{1, 2, 3}, {4}, {}, {5, 6}})
+				one, two := 1.5, 2.5
+				jsonRT(c, "*float64", []*float64{&one, nil, &two, &one})
+				jsonRT(c, "struct with omitempty", []jsonOpt{{A: 7, B: []string{"x", "y"}, C: "n"}, {}, {A: 1}, {B: []string{"z"}}})
+				c.Sample(map[string]any{"json_values": "strings, floats, ints, bools, times, snapshots, structs, maps, slices, pointers (incl. null), structs with omitted fields"})
 			}})
 			return us
 		},
